@@ -104,6 +104,7 @@ func (w *wlock) Drive(s *simrt.Sched, out *RunResult) {
 	// classify every removal of the lock file by what is being removed (observed through the
 	// simos trace hook, before the operation is performed)
 	var mu sync.Mutex
+	acquired := map[string]bool{}
 	creator := "" // process that created the current lock file ("" = pre-existing / none)
 	badRemovals := []string{}
 	pidOwner := func(content string) string {
@@ -134,18 +135,24 @@ func (w *wlock) Drive(s *simrt.Sched, out *RunResult) {
 					owner = name
 				}
 			}
+			// who removes, and from where: a process that acquired earlier (its own release) or one
+			// that never held the lock (a contender's stale-lock handling, an error path ...)
+			role := "by-contender"
+			if acquired[p.Name] {
+				role = "by-former-holder"
+			}
+			where := "@" + simos.TraceSite + "/" + role
 			switch {
 			case owner != "" && owner != p.Name && !byName[owner].Dead():
-				badRemovals = append(badRemovals, "removed-lock-of-live-holder")
+				badRemovals = append(badRemovals, "removed-lock-of-live-holder"+where)
 			case owner == "" && creator != "" && creator != p.Name && byName[creator] != nil && !byName[creator].Dead() && (content == "" || strings.HasPrefix(content, "<")):
-				badRemovals = append(badRemovals, "removed-file-of-live-creator-before-pid-was-written")
+				badRemovals = append(badRemovals, "removed-file-of-live-creator-before-pid-was-written"+where)
 			}
 			creator = ""
 		}
 	}
 	interrupted := map[string]bool{}
 	holders := map[string]bool{}
-	acquired := map[string]bool{}
 	maxHolders := 0
 	var procs []*simrt.Proc
 	byName = map[string]*simrt.Proc{}
